@@ -133,6 +133,13 @@ func (g *gen) tsStdFunc(rel, fn string) *ast.FuncDecl {
 
 func genTsParse(g *gen) {
 	const dir = "testscript"
+	var shapeSeps, shapeComments string
+	var shapeQuote byte
+	defer func() {
+		if len(g.errs) == 0 {
+			emitParseShape(g, dir, shapeQuote, shapeComments, shapeSeps)
+		}
+	}()
 
 	// ---- the tokenizer (*TestScript).parse
 	if fd := g.funcDecl(dir, "TestScript.parse"); fd != nil {
@@ -163,6 +170,7 @@ func genTsParse(g *gen) {
 				} else {
 					g.emitBytesLit("ts_sep_bytes", "testscript parse: unquoted characters that end an argument", string(seps))
 					g.emitBytesLit("ts_comment_bytes", "testscript parse: separators that end the line", string(comments))
+					shapeSeps, shapeComments = string(seps), string(comments)
 				}
 			}
 			foundQuote := false
@@ -184,6 +192,7 @@ func genTsParse(g *gen) {
 					g.fail("%s: parse: the doubled-quote look-ahead line[i+1] == c was not found", dir)
 					continue
 				}
+				shapeQuote = q
 				g.emitByte("ts_quote", "testscript parse: quote character", q)
 				g.emitByte("ts_quote_next", "testscript parse: look-ahead character of a doubled quote", next[0])
 				foundQuote = true
